@@ -98,10 +98,33 @@ def run(ctx):
         numpy_level(ctx, rng, pmod, mr, utils)
     for i, rng in ctx.cases("accessor", ctx.n(260, 6000)):
         accessor_level(ctx, rng, xr, pmod, mr, utils)
+    for i, rng in ctx.cases("history", ctx.n(300, 6000)):
+        history(ctx, rng, pmod, mr)
     corpus(ctx, pmod, mr)
     if ctx.thorough and ctx.shard == 0 and ctx.only is None:
         specpart.partition = mr.orig
         repo_tests(ctx, "c03", ["tests/test_partition.py"])
+
+
+def history(ctx, rng, pmod, mr):
+    """Sequences of calls on grids that share size, end frequencies, depth and wind but differ in
+    their interior spacing: every call is judged on its own (nothing may carry over)."""
+    nf = int(rng.choice([6, 10, 16, 25]))
+    nd = int(rng.choice([8, 12, 24]))
+    lo, hi = 0.04, float(rng.choice([0.3, 0.4, 0.6]))
+    th = np.arange(nd) * (360.0 / nd)
+    wind = (float(rng.uniform(5, 30)), float(rng.uniform(0, 360)), float(rng.choice([15.0, 30.0, 80.0, 2000.0])), 1.7, 0.3333)
+    grids = [np.geomspace(lo, hi, nf), np.linspace(lo, hi, nf), lo + (hi - lo) * np.linspace(0, 1, nf) ** 1.6]
+    for step in range(int(rng.integers(3, 7))):
+        f = grids[int(rng.integers(len(grids)))]
+        kind = str(rng.choice(["ptm1", "ptm2"]))
+        S = make_spec(rng, f, th, "multimodal")
+        mr.take()
+        fn = pmod.np_ptm1 if kind == "ptm1" else pmod.np_ptm2
+        out = fn(S, S, f, th, wind[0], wind[1], wind[2], agefac=wind[3], wscut=wind[4], swells=4, ihmax=100)
+        calls = mr.take()
+        judge(ctx.rec, "np_" + kind, "history|%s|step=%d|nf=%d" % (kind, min(step, 3), nf), kind, S, calls[0][2], f, th, out, 4, wind, 1e-9,
+              {"ihmax": 100, "kind": kind, "native_ptp": float(np.ptp(calls[0][0])), "history_step": step})
 
 
 def corpus(ctx, pmod, mr):
